@@ -13,7 +13,7 @@ Open Scope R_scope.
 (* Every valid projected point (x, y) of the data lies in the frozen extent and maps to a valid pixel through the
    area's own index function (masked_ints model: not masked, 0 <= col < width, 0 <= row < height); unless the x extent
    is the global one it lies strictly inside and its canonical floor cell is a valid pixel too.
-   The point's x coordinate in the frozen CRS is x - pm + 360 k (pm = 180 iff +pm=180 was put into the CRS; k = 0 and
+   The point's x coordinate in the frozen CRS is x - pm + 360 k (pm = 180 iff the prime meridian of the requested CRS was moved by 180 degrees; k = 0 and
    pm = 0 for every non-geographic CRS); in closed form it is [frozen_x]: x itself, x % 360 in the wrapped modes, x % 360 - 180
    for modify_crs (H_pm: this is how PROJ places a longitude in the +pm=180 CRS; validated on the implementation by the harness).
    Hypotheses: extent/size not given explicitly (else see C14_explicit_kept); at least one valid point, all <= 9e29;
@@ -164,7 +164,8 @@ Proof.
   intros pm xc y0 y1. apply bound_centers_spec, Hv.
 Qed.
 Print Assumptions C14_antimeridian_modes.
-(* +pm=180 is put into the CRS exactly when the antimeridian branch is taken with mode modify_crs *)
+(* the prime meridian is moved by 180 degrees (+pm=180 on a Greenwich-based CRS) exactly when the antimeridian branch is taken
+   with mode modify_crs *)
 Theorem C14_pm180_iff : forall d fres fshape geo mode aou pts fr,
   explicit_area d fshape = None -> valid_pts pts ->
   freeze RO wrapR d fres fshape geo mode aou pts = Some fr ->
